@@ -75,6 +75,11 @@ fn main() {
             let scripts = read_ndjson(&args.str("in", ""));
             sg::csr_replay(&scripts, &mut log);
         }
+        "gm-replay" => {
+            let mut log = Log::to_path(&out);
+            let scripts = read_ndjson(&args.str("in", ""));
+            sg::gm_replay(&scripts, &mut log);
+        }
         "mx-grow" => {
             let mut log = Log::to_path(&out);
             let calls = read_ndjson(&args.str("in", ""));
